@@ -17,7 +17,7 @@ def oracle_req(case, reply):
         return "c07-lad-check " + w[3] + " " + reply
     if w[0] == "cmp":
         return "c07-check " + w[3] + " " + reply
-    if w[0] == "min":
+    if w[0] in ("min", "ord"):
         return "c07-min-check " + " ".join(w[1:4]) + " " + reply
     if w[0] == "e2e":
         return "c07-check-e2e " + w[4] + " " + reply
@@ -28,7 +28,7 @@ def nontrivial(case):
     w = case.split()
     if w[0] in ("lad", "cmp"):
         return ("|" in w[3] or ";" in w[3]) and w[1] != "0"
-    if w[0] == "min":
+    if w[0] in ("min", "ord"):
         return w[3] != "-"
     if w[0] == "e2e":
         # at least one non-terminal with a real decision
@@ -39,7 +39,7 @@ def nontrivial(case):
 def extra(ctx, state):
     cases = common.read_lines(ctx.path("cases.txt"))
     impl = common.read_lines(ctx.path("impl.txt"))
-    stats = {"lad": 0, "cmp": 0, "min": 0, "e2e": 0}
+    stats = {"lad": 0, "cmp": 0, "min": 0, "ord": 0, "e2e": 0}
     e2e_nts, e2e_k = 0, {}
     replies = {}
     for c, r in zip(cases, impl):
